@@ -5,6 +5,7 @@ import (
 	"context"
 	"fmt"
 	"os"
+	"runtime/debug"
 	"sort"
 	"strings"
 	"testing"
@@ -88,6 +89,9 @@ func TestCheck(t *testing.T) {
 		}
 	}()
 	gspec.EnableInterruptHook()
+	// thousands of small graphs are compiled and run: with the default GC target most of the CPU time goes
+	// into collection cycles of a tiny heap
+	debug.SetGCPercent(800)
 	ctx := context.Background()
 	n := int64(cfg.Pick(48, 80))
 	// the last cases of every shard belong to the typed sub-workload (typed_test.go)
